@@ -31,6 +31,8 @@ def c06(line, obs, sc, ln):
             continue
         o = ncommon.parse_obs(ob)
         idxs = [i for _, i in o["m"]]
+        if o["u"]:
+            out.append(("uninit_read", "the worker / snapshot read %d item(s) through get_unchecked before they were initialised (e.g. the sort's tie-break on an in-flight item): %s" % (o["u"], ob)))
         if len(set(idxs)) != len(idxs):
             out.append(("duplicate", "an item appears twice in the snapshot: %s" % ob))
         if len(o["d"]) != len(o["m"]):
